@@ -9,7 +9,10 @@ TERMS = [u'冬至', u'小寒', u'大寒', u'立春', u'雨水', u'惊蛰', u'春
 
 
 def run(ctx):
+    ctx.exhaustive = False
+    ctx.exhaustive_note = 'complete over every day of a scenario year for three term placements; not over all real dates'
     from rules import shared
+    ctx.include('effect_inventory', shared.effect_inventory)   # no new process-wide mutable state (MIR statics inventory)
     ctx.include('solver_structure', shared.solver_structure)   # the day-level term / new-moon solvers fall back to the precise solver near civil midnight
     ctx.include('jd_tables', shared.jd_tables)           # civil date <-> day number per (year, month) (shared, cached per source hash)
     p = ctx.prog
